@@ -48,8 +48,10 @@ func txWorlds() []WorldRun {
 }
 
 func init() {
-	regExplore("C01", txWorlds(), one(monitors.Conservation{}))
-	regExplore("C02", txWorlds(), one(monitors.NonNegative{}))
+	// both speak about "every committed height": the amounts of the committed state must be the node's
+	amounts := []string{"acct/", "coin/", "pool/", "cand/", "frozen/", "wait/", "order/", "total_slashed"}
+	regExplore("C01", txWorlds(), one(monitors.Committed(monitors.Conservation{}, amounts...)))
+	regExplore("C02", txWorlds(), one(monitors.Committed(monitors.NonNegative{}, amounts...)))
 	// C03: the twin monitor plus the inert-rejection probe (checks/c03_inert.go)
 	MonitorsFor["C03"] = one(monitors.FailedTxOnlyFee{})
 	Register(&Check{ID: "C03", Level: "model_checking", Run: func(c *Ctx) {
